@@ -360,23 +360,6 @@ Proof.
 Qed.
 
 (* ---------- json.dumps(sort_keys=True) of an encoding = the encoding of the field-sorted type ---------- *)
-Fixpoint canon (t : ty) : ty :=
-  match t with
-  | TAny | TCls _ | TCallable | TFwd _ => t
-  | TType x => TType (canon x)
-  | TList x => TList (canon x)
-  | TSet x => TSet (canon x)
-  | TIterator x => TIterator (canon x)
-  | TTupleVar x => TTupleVar (canon x)
-  | TDict k v => TDict (canon k) (canon v)
-  | TDefaultDict k v => TDefaultDict (canon k) (canon v)
-  | TTuple ts => TTuple (map canon ts)
-  | TUnion ts => TUnion (map canon ts)
-  | TGenerator a b c => TGenerator (canon a) (canon b) (canon c)
-  | TTypedDict r o => TTypedDict (sort_kv (map (fun f => (fst f, canon (snd f))) r))
-                                 (sort_kv (map (fun f => (fst f, canon (snd f))) o))
-  end.
-
 Lemma jsort_jtype m q elems :
   jsort (jtype m q elems) = jtype m q (match elems with Some js => Some (map jsort js) | None => None end).
 Proof. destruct elems; reflexivity. Qed.
